@@ -252,7 +252,7 @@ class C19(Check):
                 return
             printable = z3.Star(z3.Range(" ", "~"))
             eng.assume(SymBool(z3.InRe(s, printable)))
-            impl = z3.Intersect(rx.to_z3(self.real["fs"].pattern), z3.Complement(rx.to_z3(self.real["nv"].pattern)))
+            impl = z3.Intersect(rx.to_z3(self.real["fs"].pattern, self.real["fs"].flags), z3.Complement(rx.to_z3(self.real["nv"].pattern, self.real["nv"].flags)))
             eng.reachable()
             eng.claim("base grammar: accepted <=> sentence of the documented grammar (any length)", z3.InRe(s, impl) == z3.InRe(s, rx.to_z3(DOC_BASE)))
         else:
@@ -262,7 +262,7 @@ class C19(Check):
                 return
             eng.assume(SymBool(z3.InRe(s, z3.Star(z3.Range(" ", "~")))))
             eng.reachable()
-            eng.claim("background-colour strings accepted by draw(): '#' or '#' + 6 hex digits", z3.InRe(s, rx.to_z3(self.real["ab"].pattern)) == z3.InRe(s, rx.to_z3(doc.pattern)))
+            eng.claim("background-colour strings accepted by draw(): '#' or '#' + 6 hex digits", z3.InRe(s, rx.to_z3(self.real["ab"].pattern, self.real["ab"].flags)) == z3.InRe(s, rx.to_z3(doc.pattern)))
 
     # ---------------------------------------------------------------- part B
     def body(self, eng, shape):
